@@ -122,15 +122,15 @@ def direct(tier, seed, agg):
     n = 16
     quick = tier == "quick"
     yield from _sweep("L1.pairs", "c18.L1.pairs", [["lexsweep", "pairs", i, n] for i in range(n)], agg)
-    yield from _sweep("L2.strings.S1", "c18.L2.strings", [["lexsweep", "strings", S1, 5 if quick else 6, i, n] for i in range(n)], agg)
-    yield from _sweep("L2.strings.S2", "c18.L2.strings", [["lexsweep", "strings", S2, 5 if quick else 7, i, n] for i in range(n)], agg)
-    yield from _sweep("L2.strbody", "c18.L2.strbody", [["lexsweep", "strings", S3, 6 if quick else 7, i, n, r"x\s\q", r"\q\sy"] for i in range(n)], agg)
+    yield from _sweep("L2.strings.S1", "c18.L2.strings", [["lexsweep", "strings", S1, 6, i, n] for i in range(n)], agg)
+    yield from _sweep("L2.strings.S2", "c18.L2.strings", [["lexsweep", "strings", S2, 6 if quick else 7, i, n] for i in range(n)], agg)
+    yield from _sweep("L2.strbody", "c18.L2.strbody", [["lexsweep", "strings", S3, 7, i, n, r"x\s\q", r"\q\sy"] for i in range(n)], agg)
     # a string literal INSIDE the braces of another string literal (also spanning lines): every body over {", a, LF, SP, +, z}
-    yield from _sweep("L2.nested", "c18.L2.nested", [["lexsweep", "strings", r"\q,a,\n,\s,+,z", 5 if quick else 7, i, n, r"x\s\qp{", r"}q\q\sy"] for i in range(n)], agg)
-    yield from _sweep("L2.nested-after-break", "c18.L2.nested", [["lexsweep", "strings", r"\q,a,\n,\s,+", 4 if quick else 6, i, n, r"\qp\n{", r"}\q\sy"] for i in range(n)], agg)
+    yield from _sweep("L2.nested", "c18.L2.nested", [["lexsweep", "strings", r"\q,a,\n,\s,+,z", 6 if quick else 7, i, n, r"x\s\qp{", r"}q\q\sy"] for i in range(n)], agg)
+    yield from _sweep("L2.nested-after-break", "c18.L2.nested", [["lexsweep", "strings", r"\q,a,\n,\s,+", 5 if quick else 6, i, n, r"\qp\n{", r"}\q\sy"] for i in range(n)], agg)
     yield from _sweep("L3.layouts", "c18.L3.layouts", [["lexsweep", "layouts", 3 if quick else 4, i, n] for i in range(n)], agg)
     # L5 automaton
-    cap, depth = (16, 5) if quick else (40, 6)
+    cap, depth = (24, 6) if quick else (40, 6)
     for a, lines, rc, err in run_shards([["automaton", cap, depth]]):
         if rc != 0:
             yield {"machinery": "automaton exited %s: %s" % (rc, err[-400:]), "cid": "L5"}
